@@ -197,12 +197,14 @@ def coq_cone(pid):
     return seen
 
 
-def failing_families_in_cone(pid):
+def failing_families_in_cone(pid, only_stale=False):
+    """translator families in the property's Coq cone that could not read the source; with
+    only_stale: those of them whose data of the last successful translation was kept"""
     try:
         status = json.load(open(os.path.join(COQ, 'Gen', 'status.json')))
     except Exception:
-        return ['<status.json unreadable>']
-    bad = [k for k, v in status.items() if v != 'ok']
+        return [] if only_stale else ['<status.json unreadable>']
+    bad = [k for k, v in status.items() if v != 'ok' and (not only_stale or str(v).startswith('stale'))]
     cone = coq_cone(pid)
     if cone is None:
         return bad
@@ -776,20 +778,30 @@ class Check:
             broken = []
             if not self.proof_ok:
                 broken.append({'broken': 'proof obligation', 'detail': self.proof_failure})
+            soft = []
             if not self.translate_ok:
-                # a translator family that cannot read the source breaks the tie only for the
-                # properties whose Coq cone contains its Gen file (its .v then carries a failing
-                # marker, so the build of that cone fails as well)
+                # a translator family that cannot read the source concerns only the properties whose
+                # Coq cone contains its Gen file.  Where the data of the last successful translation
+                # could be kept (status 'stale'), the model still builds and the tie falls back on the
+                # correspondence alone: the search is escalated to the thorough generators, and the
+                # check fails if model and implementation differ anywhere.  Without earlier data the
+                # Gen file carries a failing marker, the cone does not build and the tie is broken.
                 bad_fams = failing_families_in_cone(pid)
-                if bad_fams:
+                stale = failing_families_in_cone(pid, only_stale=True)
+                if bad_fams and set(bad_fams) == set(stale):
+                    soft = stale
+                elif bad_fams:
                     broken.append({'broken': 'translator', 'families': bad_fams, 'detail': self.notes})
                 else:
                     self.notes.append('translator families outside this property\'s cone failed (ignored here)')
-            if self.unexplained:
+
+            def corr_entry():
                 c, a, b, v = self.unexplained[0]
-                broken.append({'broken': 'correspondence', 'case': c, 'impl_output': a, 'model_output': b, 'judge': v,
-                               'count': len(self.unexplained)})
-            if broken and not self.violations:
+                return {'broken': 'correspondence', 'case': c, 'impl_output': a, 'model_output': b, 'judge': v,
+                        'count': len(self.unexplained)}
+            if self.unexplained:
+                broken.append(corr_entry())
+            if (broken or soft) and not self.violations:
                 # search harder for a failing input before giving up
                 if tier == 'quick':
                     log('proof/correspondence broken: escalating the search to the thorough generators')
@@ -800,7 +812,17 @@ class Check:
                     for k in ('evaluations', 'distinct_nontrivial', 'samples', 'distribution_op_resultkind'):
                         if k in save:
                             self.cov[k] = save[k]
-                if not self.violations:
+                    if self.unexplained and not any(b.get('broken') == 'correspondence' for b in broken):
+                        broken.append(corr_entry())
+                if soft and not broken and not self.violations:
+                    msg = ('translator families %s could not read the changed source; data of the last successful '
+                           'translation kept, model and code tied by the escalated correspondence run alone '
+                           '(%s cases, 0 disagreements)' % (soft, (self.cov.get('escalated_search') or self.cov).get('evaluations')))
+                    self.notes.append(msg)
+                    print('NOTE property=%s %s' % (pid, msg))
+                elif soft:
+                    broken.append({'broken': 'translator (stale data kept)', 'families': soft, 'detail': self.notes})
+                if broken and not self.violations:
                     path = self.write_replay({'kind': 'no-failing-input-found', 'property': pid, 'broken': broken,
                                               'seed': self.seed, 'tier': self.tier})
                     self.violations.append({'replay': path, 'suffix': ' no-failing-input-found'})
